@@ -199,8 +199,11 @@ PROPS = {
     'C12': dict(
         rules=[layout.est_rules, sensor.sm_accum, sensor.sm_sign,
                lambda c: sched.sched_handover(c, (sched.FB,)), kal.q_psd, idxdom.idx_domain,
-               interp.interp_rules, interp.fb_epoch, layout.corr_pair],
-        decided=['both filters reset both sensor models before any use (re-run reproducibility)',
+               interp.interp_rules, interp.fb_epoch, layout.corr_pair,
+               lambda c: sched.sched_epochs(c, (sched.FB, sched.FF)),
+               lambda c: sched.sched_sibling(c, ('feedback', 'feedforward'))],
+        decided=['both filters fuse the same set of measurement samples: same epoch-list stages (merge, de-duplication, clip to [start, end], sentinel) in both loops',
+                 'both filters reset both sensor models before any use (re-run reproducibility)',
                  'feedback effects (set_pva, update_estimates, correct) only inside the '
                  'measurement-due block: with no epoch in the span the loop is plain integration '
                  'of corrected increments with reset (neutral) estimates',
